@@ -36,7 +36,7 @@ PLANS = {
     'C08': {'jobs': [J('tmr', W124, 3), J('tmrmix', W124, 1), J('tmr', [2, 4], 1, 'asan'), S('tmrrace', W124, 2), D('tmr', [1, 2], 'TT_,TL_,TIMER_,SLEEP_,LIST_,PARK_SUB')]},
     'C09': {'jobs': [J('can', W124, 3), J('mutexc', [2], 1), J('semc', [1, 2], 1), J('cvc', [2], 1), J('relock', [2], 1), J('rwc', [2], 1), J('rwcr', [2], 1), J('iocan', [2], 1),
                      J('can', [2, 4], 1, 'asan'), S('hsmutex', [2], 1), S('hssem', [2], 1), D('can', [2], 'CANCEL_,PARK_SUB,MUTEX_CANCEL,SEM_,CV_')]},
-    'C10': {'jobs': [J('sem', W124, 2), J('semc', W124, 1), J('flag', W124, 1), J('semc', [2], 1, 'asan'), S('hssem', [2, 4], 2), S('semrace', [2, 4], 1), D('sem', [1, 2], 'SEM_,SYNCBLOCKER_'), D('flag', [2], 'FLAG_')]},
+    'C10': {'jobs': [J('sem', W124, 2), J('semc', W124, 1), J('flag', W124, 1), J('semc', [2], 1, 'asan'), S('hssem', [2, 4], 2), S('semrace', [2, 4], 1), D('sem', [1, 2], 'SEM_,SYNCBLOCKER_'), D('semlock', [1, 2], 'SEM_,SYNCBLOCKER_'), J('semlock', [2, 4], 1), D('flag', [2], 'FLAG_')]},
     'C11': {'jobs': [J('cv', W124, 2), J('cvc', W124, 1), J('relock', W124, 1), J('bar', W124, 1), J('cvc', [2], 1, 'asan'), S('cvrace', [2, 4], 2), D('cv', [1, 2], 'CV_,SYNCBLOCKER_,MUTEX_'), D('cvc', [2], 'CV_,SYNCBLOCKER_,MUTEX_CANCEL')]},
     'C12': {'jobs': [J('rwseq', [1], 2), J('rw', W124, 2), J('rwc', W124, 2), J('rwcr', W124, 1), J('rwseq', [1], 1, 'rel'), J('rw', [2], 1, 'rel'),
                      J('rw', [2, 4], 1, 'asan', thorough_only=True), D('rw', [1, 2], 'RW_'), D('rwc', [2], 'RW_,MUTEX_CANCEL')]},
